@@ -463,23 +463,11 @@ Variable kill_fixed : bool.
 Variable mount_nl : bool.      (* true = the two pinned C02 defects: Mount= keeps the csv newline, Volume= drops text after the third ':' *)
 
 (* ---------- .container ---------- *)
-Definition from_container (u : unit) (path : str) (tbl : table) : cres (unit * str * table) :=
+(* the body in consecutive segments (each one a stretch of from_container_unit), so that statements about one stretch
+   do not have to carry the whole function *)
+(* ContainerName, [Service] Environment/KillMode, [Unit] RequiresMountsFor, base command, ExecStop/ExecStopPost *)
+Definition ct_service (u : unit) (path : str) (svc : unit) : bres (str * list (str * str) * list str * unit) :=
   let sec := c_CONTAINER_SECTION in
-  do pr <- prologue u path tbl TContainer a_SUPPORTED_CONTAINER_KEYS;
-  let '(inf, svc) := pr in
-  lift (
-  let svc_path := service_file_name inf in
-  let svc := rename_own svc TContainer in
-  do image0 <- lk u sec (L "Image");
-  do rootfs0 <- lk u sec (L "Rootfs");
-  let image := match image0 with Some s => s | None => [] end in
-  let rootfs := match rootfs0 with Some s => s | None => [] end in
-  match image, rootfs with
-  | [], [] => err EInvalidImageOrRootfs
-  | _ :: _, _ :: _ => err EInvalidImageOrRootfs
-  | _, _ =>
-  do r1 <- (match image with [] => COk (image, svc) | _ => handle_image_source image svc tbl end);
-  let '(image, svc) := r1 in
   do cname <- container_name u path;
   let svc := unit_add svc SEC_S (L "Environment") (L "PODMAN_SYSTEMD_UNIT=%n") in
   do km <- lk svc SEC_S (L "KillMode");
@@ -495,6 +483,11 @@ Definition from_container (u : unit) (path : str) (tbl : table) : cres (unit * s
   let stop := base ++ [L "rm"; L "-v"; L "-f"; L "-i"; L "--cidfile=%t/%N.cid"] in
   do svc <- add_raw_exec svc (L "ExecStop") stop;
   do svc <- add_raw_exec svc (L "ExecStopPost") (match stop with a0 :: r => (cDASH :: a0) :: r | [] => [] end);
+  COk (cname, podman_env, base, svc).
+
+(* podman run ... up to the table-driven keys *)
+Definition ct_run_head (u : unit) (base : list str) (cname : str) (svc : unit) : bres (list str * unit) :=
+  let sec := c_CONTAINER_SECTION in
   let args := base ++ [L "run"; L "--name"; cname; L "--cidfile=%t/%N.cid"; L "--replace"; L "--rm"] in
   do args <- handle_log_driver u sec args;
   let args := handle_log_opt u sec args in
@@ -504,6 +497,11 @@ Definition from_container (u : unit) (path : str) (tbl : table) : cres (unit * s
   do args <- add_strings u sec pt_from_container_unit_string_keys args;
   do args <- add_all_strings u sec pt_from_container_unit_all_string_keys args;
   let args := add_bools u sec pt_from_container_unit_bool_keys args in
+  COk (args, svc).
+
+(* networks, service Type / Notify, SyslogIdentifier *)
+Definition ct_net_notify (u : unit) (tbl : table) (args : list str) (svc : unit) : bres (list str * unit) :=
+  let sec := c_CONTAINER_SECTION in
   do r2 <- handle_networks u sec svc tbl args;
   let '(args, svc) := r2 in
   do stype <- lk u SEC_S (L "Type");
@@ -525,6 +523,11 @@ Definition from_container (u : unit) (path : str) (tbl : table) : cres (unit * s
   let '(args, svc) := r3 in
   do sysl <- lk u SEC_S (L "SyslogIdentifier");
   let svc := match sysl with None => unit_set svc SEC_S (L "SyslogIdentifier") (L "%N") | Some _ => svc end in
+  COk (args, svc).
+
+(* security options, devices, capabilities, sysctl, read-only/tmpfs, user and id mappings *)
+Definition ct_security (u : unit) (args : list str) : bres (list str) :=
+  let sec := c_CONTAINER_SECTION in
   let bool_or_false k := match lookup_bool u sec k with Some b => b | None => false end in
   let args := if bool_or_false (L "NoNewPrivileges") then args ++ [L "--security-opt=no-new-privileges"] else args in
   let args := if bool_or_false (L "SecurityLabelDisable") then args ++ [L "--security-opt"; L "label=disable"] else args in
@@ -547,8 +550,11 @@ Definition from_container (u : unit) (path : str) (tbl : table) : cres (unit * s
               then args ++ [L "--tmpfs"; L "/tmp:rw,size=512M,mode=1777"] else args in
   do args <- handle_user u sec args;
   do args <- handle_user_mappings u sec args true;
-  do r4 <- handle_volumes mount_nl u path sec svc tbl args;
-  let '(args, svc) := r4 in
+  COk args.
+
+(* auto-update label, exposed and published ports, env/label/annotation, masks, env files, secrets *)
+Definition ct_labels_ports (u : unit) (path : str) (podman_env : list (str * str)) (args : list str) : bres (list str) :=
+  let sec := c_CONTAINER_SECTION in
   do au <- lk u sec (L "AutoUpdate");
   let args := match au with Some (c :: s) => args ++ [L "--label"; c_AUTO_UPDATE_LABEL ++ [cEQ] ++ c :: s] | _ => args end in
   do ports <- lk_all u sec (L "ExposeHostPort");
@@ -566,6 +572,35 @@ Definition from_container (u : unit) (path : str) (tbl : table) : cres (unit * s
                     end) (lookup_all_args u sec (L "EnvironmentFile"));
   let args := args ++ with_flag (L "--env-file") envfiles in
   let args := args ++ with_flag (L "--secret") (lookup_all_args u sec (L "Secret")) in
+  COk args.
+
+Definition from_container (u : unit) (path : str) (tbl : table) : cres (unit * str * table) :=
+  let sec := c_CONTAINER_SECTION in
+  do pr <- prologue u path tbl TContainer a_SUPPORTED_CONTAINER_KEYS;
+  let '(inf, svc) := pr in
+  lift (
+  let svc_path := service_file_name inf in
+  let svc := rename_own svc TContainer in
+  do image0 <- lk u sec (L "Image");
+  do rootfs0 <- lk u sec (L "Rootfs");
+  let image := match image0 with Some s => s | None => [] end in
+  let rootfs := match rootfs0 with Some s => s | None => [] end in
+  match image, rootfs with
+  | [], [] => err EInvalidImageOrRootfs
+  | _ :: _, _ :: _ => err EInvalidImageOrRootfs
+  | _, _ =>
+  do r1 <- (match image with [] => COk (image, svc) | _ => handle_image_source image svc tbl end);
+  let '(image, svc) := r1 in
+  do ra <- ct_service u path svc;
+  let '(cname, podman_env, base, svc) := ra in
+  do rb <- ct_run_head u base cname svc;
+  let '(args, svc) := rb in
+  do rc <- ct_net_notify u tbl args svc;
+  let '(args, svc) := rc in
+  do args <- ct_security u args;
+  do r4 <- handle_volumes mount_nl u path sec svc tbl args;
+  let '(args, svc) := r4 in
+  do args <- ct_labels_ports u path podman_env args;
   do r5 <- mounts_loop mount_nl path (lookup_all_args u sec (L "Mount")) svc tbl args;
   let '(args, svc) := r5 in
   do args <- handle_health u sec args;
